@@ -17,7 +17,7 @@ def fam_values(maxops):
     return {
         'comps': {'1': {'chan': 'a'}, '2': {'chan': 'a'}},
         'handlers': {
-            '1': _h(1, ['x0'], 2, {'x0': [['ret', 1]]}),
+            '1': _h(1, ['x0'], 2, {'x0': [['ret', 1000]]}),          # 1000 stands for the falsy result 0
             '2': _h(2, ['x0'], 1, {'x0': [['fire', {'name': 'x1', 'flags': 3}], ['raise']]}),
             '3': _h(1, ['x0', 'x1'], 0, {'x0': [], 'x1': [['ret', 3]]}),
             '4': _h(2, ['x0', 'x1'], -1, {'x0': [['ret', 4]], 'x1': [['raise']]}),
